@@ -15,9 +15,11 @@ from harness.common.rng import Rng
 from harness.props import in_util
 
 PROP = "C11"
-LEAN_MODULES = ["LunaVerif.Props.C11", "LunaVerif.Lemmas.C11Host", "LunaVerif.Lemmas.C11Refine"]
+LEAN_MODULES = ["LunaVerif.Props.C11", "LunaVerif.Lemmas.C11Host", "LunaVerif.Lemmas.C11Refine",
+                "LunaVerif.Lemmas.C11Ends"]
 DRIVER = "Driver/C11.lean"
-REQUIRED_THEOREMS = ["in_exactly_once", "host_data_is_prefix", "at_most_two_packets_buffered", "J_reachable",
+REQUIRED_THEOREMS = ["in_exactly_once", "transfer_ends_short_or_zlp", "host_data_is_prefix",
+                     "at_most_two_packets_buffered", "J_reachable", "K_reachable",
                      "inv_reachable", "packet_len_le_mps", "retry_repeats_pid_and_payload", "nak_when_no_packet",
                      "send_packet_streams_buffer", "read_buffer_frozen", "pid_flips_only_with_new_packet"]
 RULE = ("cases = max_packet_size in {1,2,3,8,64,512} x mode; modes: 'host' (legal host + producer with transfers of "
@@ -32,15 +34,14 @@ ASSUMPTIONS = [
     "C14's subject and is checked separately); tokens, handshakes, flush, producer and packet_stream.ready are "
     "arbitrary (the FSM takes an ACK only in WAIT_FOR_ACK, which is entered only by completing a packet); the ghost "
     "host receives every completed packet and keeps it iff its PID differs from the last kept one (DATA0 expected first)",
+    "environment of transfer_ends_short_or_zlp (LegalZlpEnv): as LegalInEnv, and generate_zlps = 1 in every cycle, mps >= 1; "
+    "the statement is the checker endsOk over (host-kept packets, producer's last marks): packet <= mps, a last-marked "
+    "byte is the final byte of its packet, after a full-size such packet the next kept packet is a ZLP, a ZLP is kept "
+    "only then",
     "the monitor's closed-loop host additionally issues an ACK strobe (with active & is_in) only after a completely "
     "transmitted packet and before the next token; ack and new_token never in the same cycle",
 ]
-PARTIAL = ("transfer_ends_short_or_zlp (every last-marked byte is followed by a short packet or a ZLP before data of the "
-           "next transfer) is NOT proved; it is checked by the host-view monitor on the real gateware on every run "
-           "(sig transfer-boundary).  Proved: in_exactly_once (hostAccepted ++ pending(state) = producerAccepted at every "
-           "cycle of every history with discard = reset_sequence = 0, flush included), its corollaries, and the "
-           "packet-level statements (length <= mps, NAK iff no packet, retry repeats PID and payload, transmission = read "
-           "buffer).")
+PARTIAL = ""
 
 NAMES_IN = ["active", "is_in", "ready_for_response", "new_token", "ack", "s_valid", "s_payload", "s_last", "flush",
             "discard", "generate_zlps", "reset_sequence", "start_with_data1", "tx_ready"]
